@@ -199,11 +199,10 @@ func runC10(c *core.Ctx) {
 		}
 		h.weights[opAdd] = 60
 		h.weights[opChangeMapping] = 0
-		if r.P(0.4) {
-			// a history that keeps working on copies (copy, add, copy, add, ...)
-			h.weights = [opNumKinds]int{60, 0, 0, 0, 0, 0, 0, 40, 0, 0}
-			c.Count("adversarial_copy_chains", 1)
-		}
+	}
+	copyChain := adversarial && r.P(0.4)
+	if copyChain {
+		c.Count("adversarial_copy_chains", 1)
 	}
 	n := r.Range(1, 60)
 	if adversarial {
@@ -219,6 +218,17 @@ func runC10(c *core.Ctx) {
 		c.Count("soak.operations", n)
 	}
 	ops := h.gen(n)
+	if copyChain {
+		// one large value, then a history that keeps working on copies: copy, add a small value, copy, add, ...
+		big, small := h.pool[0], 1.0
+		if r.Bool() {
+			big, small = m.ClampIn(1), m.ClampIn(1e-17)
+		}
+		ops = []skOp{{kind: opAdd, v: big, w: 1}}
+		for i, k := 0, r.Range(200, 1200); i < k; i++ {
+			ops = append(ops, skOp{kind: opCopySwitch}, skOp{kind: opAdd, v: small, w: 1})
+		}
+	}
 	st := newSkState(c, "x", true, m, spec)
 	c.Logf("exact sketch, mapping %s, store %s, pattern %s", m.Desc, spec, pattern)
 	c.SigS(m.Desc)
